@@ -197,7 +197,8 @@ static uint64_t gen_interval(void) {
 	return 500000 + g_n(5000000);
 }
 
-enum { TO_PAUSE, TO_NEW, TO_AFTER, TO_RECONF_OTHER, TO_RECONF_HANDLER, TO_RECONF_SUSPENDED, TO_SUSPEND_RESUME, TO_CANCEL, TO_CANCEL_MANY, TO_N };
+enum { TO_PAUSE, TO_NEW, TO_AFTER, TO_RECONF_OTHER, TO_RECONF_HANDLER, TO_RECONF_SUSPENDED, TO_SUSPEND_RESUME, TO_CANCEL, TO_CANCEL_MANY, TO_BLOCK_QUEUE, TO_N };
+static void block_item(void *c) { sim_sleep_ns((uint64_t)(uintptr_t)c); }   // keeps a handler queue busy: sources pile up behind it
 typedef struct top { int idx, kind, tm, clock, qi, form, far; int64_t delta; uint64_t interval, leeway, pause; } top;
 static top tops[4][12]; static int ntops[4];
 
@@ -228,6 +229,7 @@ static void *timer_client(void *arg) {
 			if (t && !t->cancelled) { dispatch_suspend(t->ds); t->suspended++; sim_sleep_ns(op->pause); t->suspended--; dispatch_resume(t->ds); }
 			break;
 		case TO_CANCEL: if (t && !t->cancelled) { t->cancelled = 1; h_log("cancel timer %d", t->id); dispatch_source_cancel(t->ds); } break;
+		case TO_BLOCK_QUEUE: if (op->qi) dispatch_async_f(T.q[op->qi], (void *)(uintptr_t)(op->pause * 8), block_item); break;   // up to ~5 ms
 		case TO_CANCEL_MANY: {
 			// arbitrary removals from a populated heap, in an order unrelated to the deadlines
 			uint64_t x = (uint64_t)op->delta * 0x9e3779b97f4a7c15ull + (uint64_t)op->tm;
@@ -304,7 +306,7 @@ static void c11_run(void) {
 		for (int i = 0; i < ntops[th]; i++) {
 			top *op = &tops[th][i]; memset(op, 0, sizeof *op); op->idx = idx++;
 			uint32_t r = g_n(100);
-			op->kind = r < 25 ? TO_PAUSE : r < 40 ? TO_NEW : r < 58 ? TO_AFTER : r < 68 ? TO_RECONF_OTHER : r < 76 ? TO_RECONF_HANDLER : r < 84 ? TO_RECONF_SUSPENDED : r < 92 ? TO_SUSPEND_RESUME : TO_CANCEL;
+			op->kind = r < 18 ? TO_PAUSE : r < 25 ? TO_BLOCK_QUEUE : r < 40 ? TO_NEW : r < 58 ? TO_AFTER : r < 68 ? TO_RECONF_OTHER : r < 76 ? TO_RECONF_HANDLER : r < 84 ? TO_RECONF_SUSPENDED : r < 92 ? TO_SUSPEND_RESUME : TO_CANCEL;
 			op->tm = (int)g_n(64); op->clock = (int)g_n(3); op->qi = (int)g_n(3); op->form = (int)g_n(2);
 			op->delta = gen_delta(&op->far); op->interval = gen_interval(); op->leeway = g_chance(1, 2) ? 0 : g_n(100000);
 			op->pause = (uint64_t)g_range(5, 600) * USEC;
@@ -312,16 +314,31 @@ static void c11_run(void) {
 	}
 	// a populated heap gets a burst of removals from the first client in half of those runs
 	if (npop >= 12 && g_chance(1, 2)) { top *op = &tops[0][(int)g_n((uint32_t)ntops[0])]; op->kind = TO_CANCEL_MANY; }
+	// a dedicated shape (an eighth of the runs): one repeating timer on the wall or monotonic clock whose handler queue
+	// is blocked; after its first fire (the source now sits behind the blocker) it is given new settings, often on another clock, with a
+	// start that is already due -- the pending configuration is then applied by the manager when the old deadline
+	// comes round, into a heap the manager has already been through; nothing else is pending that could rescue it
+	if (g_chance(1, 8)) {
+		npop = 1; T.nth = 1;
+		pop[0].clock = (int)g_n(3); pop[0].qi = 1 + (int)g_n(2); pop[0].strict = 0; pop[0].far = 0;
+		pop[0].delta = (int64_t)(100000 + g_n(300000)); pop[0].interval = 100000 + g_n(400000); pop[0].leeway = 0;
+		int n = 0; top *op;
+		op = &tops[0][n++]; memset(op, 0, sizeof *op); op->idx = idx++; op->kind = TO_BLOCK_QUEUE; op->qi = pop[0].qi; op->pause = (uint64_t)g_range(200, 600) * USEC;
+		op = &tops[0][n++]; memset(op, 0, sizeof *op); op->idx = idx++; op->kind = TO_PAUSE; op->pause = (uint64_t)pop[0].delta + (uint64_t)g_n(300000);
+		op = &tops[0][n++]; memset(op, 0, sizeof *op); op->idx = idx++; op->kind = TO_RECONF_OTHER; op->tm = 0; op->clock = (int)g_n(3);
+		op->delta = g_chance(1, 3) ? -(int64_t)g_n(100000) : g_chance(1, 2) ? 0 : (int64_t)g_n(80000); op->interval = g_chance(1, 2) ? 0 : 50000 + g_n(300000); op->leeway = 0;
+		ntops[0] = n;
+	}
 	for (int i = 0; i < npop; i++) if (op_on(i))
 		h_sample("#%d timer clock=%s start=%+ld interval=%lu leeway=%lu q%d%s\n", i, clk_names[pop[i].clock], (long)pop[i].delta, (unsigned long)pop[i].interval, (unsigned long)pop[i].leeway, pop[i].qi, pop[i].strict ? " strict" : "");
-	static const char *const tn[TO_N] = { "pause", "new-timer", "after", "set_timer(other thread)", "set_timer(from handler)", "suspend+set_timer+resume", "suspend+resume", "cancel", "cancel-many" };
+	static const char *const tn[TO_N] = { "pause", "new-timer", "after", "set_timer(other thread)", "set_timer(from handler)", "suspend+set_timer+resume", "suspend+resume", "cancel", "cancel-many", "block-handler-queue" };
 	for (int th = 0; th < T.nth; th++) {
 		h_sample("client %d:", th);
 		for (int i = 0; i < ntops[th]; i++) if (op_on(tops[th][i].idx)) {
 			top *op = &tops[th][i];
 			h_sample(" #%d %s", op->idx, tn[op->kind]);
 			if (op->kind == TO_PAUSE) h_sample("(%luus)", (unsigned long)(op->pause / 1000));
-			else if (op->kind != TO_CANCEL && op->kind != TO_CANCEL_MANY && op->kind != TO_SUSPEND_RESUME) h_sample("(%s,%+ld,%lu)", clk_names[op->clock], (long)op->delta, (unsigned long)op->interval);
+			else if (op->kind != TO_CANCEL && op->kind != TO_CANCEL_MANY && op->kind != TO_SUSPEND_RESUME && op->kind != TO_BLOCK_QUEUE) h_sample("(%s,%+ld,%lu)", clk_names[op->clock], (long)op->delta, (unsigned long)op->interval);
 		}
 		h_sample("\n");
 	}
